@@ -141,6 +141,20 @@ theorem rectangle_moment_all (x0 y0 x1 y1 : Rat) (a b : Nat) :
       = (x1 ^ (a + 1) - x0 ^ (a + 1)) / ((a + 1 : Nat) : Rat) * ((y1 ^ (b + 1) - y0 ^ (b + 1)) / ((b + 1 : Nat) : Rat)) :=
   rect_moment_all x0 y0 x1 y1 a b
 
+/-- … hence what the CODE's integrator (open Newton–Cotes on every edge with its default node count) returns for a rectangle is the iterated
+integral, for ALL exponents: quadrature exactness (every n) + Green anchor (every a, b) -/
+theorem code_rectangle_moment_all (x0 y0 x1 y1 : Rat) (a b : Nat) :
+    shapePolynomial [rect x0 y0 x1 y1] a b
+      = (x1 ^ (a + 1) - x0 ^ (a + 1)) / ((a + 1 : Nat) : Rat) * ((y1 ^ (b + 1) - y0 ^ (b + 1)) / ((b + 1 : Nat) : Rat)) := by
+  rw [polygon_moment_exact_all [rect x0 y0 x1 y1] (by
+    intro j hj s hs
+    simp only [List.mem_singleton] at hj
+    subst hj
+    simp [rect, Jordan.fromVertices] at hs
+    rcases hs with rfl | rfl | rfl | rfl <;> rfl) a b,
+    shapeExactMoment_singleton]
+  exact rect_moment_all x0 y0 x1 y1 a b
+
 /-- a horizontal edge contributes nothing to ∫ … dy, a vertical edge contributes x^a (q.y^(b+1) − p.y^(b+1))/(b+1) — all exponents -/
 theorem axis_parallel_edges (p q : Pt) (a b : Nat) :
     (p.y = q.y → exactVertical [p, q] a b = 0) ∧
